@@ -124,12 +124,12 @@ Finish(q) ==
     [] q = "F0" -> <<144, 128, 128>>
     [] q = "F4" -> <<128, 128, 128>>
 
-\* length of the longest well-formed prefix
-VInit == [q |-> "S", i |-> 0, v |-> 0]
+\* length of the longest well-formed prefix; accumulator <<q, i, v>> = DFA state, bytes
+\* consumed, length of the longest well-formed prefix so far
+VInit == <<"S", 0, 0>>
 VStep(a, b) ==
-  LET q2 == Step(a.q, b) IN
-  [q |-> q2, i |-> a.i + 1, v |-> IF q2 = "S" THEN a.i + 1 ELSE a.v]
-ValidUpTo(s) == FoldLeft(VStep, VInit, s).v
+  LET q2 == Step(a[1], b) IN <<q2, a[2] + 1, IF q2 = "S" THEN a[2] + 1 ELSE a[3]>>
+ValidUpTo(s) == FoldLeft(VStep, VInit, s)[3]
 
 (* ------------------------------------------------------------------------ *)
 (* error attribution                                                          *)
